@@ -6,4 +6,8 @@ MCView == <<seq, [i \in 1..Len(hist) |-> hist[i]], mem, imm, immOn, immDone, fil
             {[mem |-> p.mem, imm |-> p.imm, ver |-> p.ver, seq |-> p.seq] : p \in pins},
             snaps, pending, comp, disk, nextFile, curWal, logWal, gcDue, immWal>>
 MCBound == nextFile <= MaxFiles
+\* a directed configuration: the clients write keys 1 2 3 1 2 3 in this order (every flush /
+\* compaction choice in between is still explored)
+MCScript == <<1, 2, 3, 1, 2, 3>>
+MCScripted == \A i \in 1..Len(hist) : hist[i][1] = MCScript[i]
 =============================================================================
